@@ -9,6 +9,8 @@
   A polynomial of degree < N is its coefficient vector `f : Nat → F`; its value at `z` is `∑ i < N, f i * z^i`.
 -/
 import GoldilocksVerif.Lemmas.NttTop
+import GoldilocksVerif.Lemmas.BridgeNttComputeR
+import GoldilocksVerif.Lemmas.BridgeNttExtend
 
 namespace GoldilocksVerif.C05
 open GoldilocksVerif.Model.Ntt GoldilocksVerif.NttSpec Finset
@@ -68,5 +70,68 @@ example : ∃ o o' out, mkObj 8 1 = some o ∧
   obtain ⟨o', out, e, _⟩ := C05_extendPol 8 1 o ho (by omega) 2 4 (by omega) (by omega) (by omega) 2 3 1 (by omega) true #[]
     (Array.replicate (2 ^ 4 * 2) 3#64) (by simp) (by simp)
   exact ⟨o, o', out, ho, e⟩
+
+/-! ### the model GENERATED from ntt_goldilocks.cpp / .hpp (see Props/C03.lean, DESIGN.NTTGEN.md) -/
+section generated
+open GoldilocksVerif.BridgeNtt Gen.NttGen
+
+/-- generated `computeR(N)` (1 ≤ N < 2^31): the tables `r[i] = 7^i`, `r_[i] = 7^i / N` of the model's `computeR`, in two new
+    blocks at the end of the heap, `r`, `r_`, `r_N` of the object pointing to them; nothing else changes -/
+theorem C05_generated_computeR (fuel : Nat) (hf : 64 ≤ fuel) (hp : Heap) (self : NTT_Goldilocks) (o : Obj) (N : Nat)
+    (hN : 1 ≤ N) (hN31 : N < 2 ^ 31)
+    (hpti : hp.block self.powTwoInv.blk = o.powTwoInv) (hoff : self.powTwoInv.off = 0)
+    (hblk : self.powTwoInv.blk < hp.size) :
+    NTT_computeR fuel hp self (N : Int) =
+      some ((hp.push (computeR o N).2.1).push (computeR o N).2.2,
+            { self with r := ⟨hp.size, 0⟩, r_ := ⟨hp.size + 1, 0⟩, r_N := BitVec.ofNat 64 N }) :=
+  computeR_gen fuel hf hp self o N hN hN31 hpti hoff hblk
+
+/-- **the property on the generated function**: the TRANSLATED `extendPol` (no caller buffer, one column block,
+    2 ≤ N = 2^dn ≤ N_ext = 2^de ≤ 2^30, output = input block or another block), called on ANY reachable object state
+    (`o.base` constructed, the `r` / `r_` cache satisfying its invariant — absent, built for this N, or built for another N and
+    then freed and rebuilt): it returns, and the output block holds for every column the values f(7·ω_de^k) of the
+    interpolant f of the input column.  Covers the local transform object (constructed and destroyed inside), the scratch
+    block shared by the two transforms, and the cache refresh.  Route: generated `NTT_iters` = the model's `nttIters` with the
+    actual scratch content, whose field-level specification holds for every scratch content. -/
+theorem C05_generated_extendPol (maxDomainSize extension : Nat) (o : Obj) (hbase : mkObj maxDomainSize extension = some o.base)
+    (hwf : o.wf) (hext : extension ≤ 1) (dn de : Nat) (hdn1 : 1 ≤ dn) (hn : 2 ^ dn ≤ maxDomainSize) (hne : dn ≤ de) (hde : de ≤ 30)
+    (fuel : Nat) (hf : 64 ≤ fuel) (hp : Heap) (self : NTT_Goldilocks) (hrep : ObjRep hp self o) (hin : ObjIn hp self)
+    (hdisj : ObjDisj self)
+    (Out In : Nat) (hOut : Out < hp.size) (hIn : In < hp.size) (hOut0 : Out ≠ 0)
+    (hfrOut : ObjFrame self Out) (hfrIn : ObjFrame self In)
+    (ncols : Nat) (nphase nblock : BitVec 64) (hnc : 1 ≤ ncols) (hbound : 2 ^ de * ncols * 8 < 2 ^ 64)
+    (hnb : clampBlock nblock.toNat ncols = 1) (hout : 2 ^ de * ncols ≤ (hp.block Out).size) :
+    ∃ hp' self', NTT_extendPol fuel hp self ⟨Out, 0⟩ ⟨In, 0⟩ (bv (2 ^ de)) (bv (2 ^ dn)) (bv ncols) Ptr.null nphase nblock =
+        some (hp', self') ∧ (hp'.block Out).size = (hp.block Out).size ∧
+      ∀ c, c < ncols → ∃ f : Nat → F,
+        (∀ j, j < 2 ^ dn →
+          ∑ i ∈ range (2 ^ dn), f i * (omega dn ^ j) ^ i = den ((hp.block In).getD (j * ncols + c) 0#64)) ∧
+        (∀ k, k < 2 ^ de →
+          den ((hp'.block Out).getD (k * ncols + c) 0#64) = ∑ i ∈ range (2 ^ dn), f i * (7 * omega de ^ k) ^ i) := by
+  have hm : maxDomainSize ≠ 0 := by have := Nat.two_pow_pos dn; omega
+  have hO0 := mkObj_ok maxDomainSize extension o.base hm hext hbase
+  have ho : setCache o.base o.rcache = o := by cases o; rfl
+  have hO : ObjOk o (log2 maxDomainSize) := by
+    have := hO0.setCache o.rcache (by rw [ho]; exact hwf)
+    rw [ho] at this; exact this
+  obtain ⟨hs1, hs2, _⟩ := mkObj_s_val maxDomainSize extension o.base hm hbase
+  have hsb : o.base.s = o.s := rfl
+  rw [hsb] at hs1 hs2
+  have hd : dn ≤ log2 maxDomainSize := (Nat.le_log2 hm).mpr hn
+  have hd32 : dn ≤ 32 := Nat.le_trans hd hO.dle
+  obtain ⟨hp', self', out, e, hb, hsz, _, c⟩ := extendPol_gen fuel hf hp self o _ hrep hin hdisj hO hs2 Out In hOut hIn hOut0
+    hfrOut hfrIn dn de ncols hdn1 hne hde hd (by omega) hnc hbound nphase nblock hnb hout
+  refine ⟨hp', self', e, by rw [hb, hsz], ?_⟩
+  intro col hcol
+  refine ⟨idft (omega dn) (2 ^ dn) (fun j => cell (hp.block In) ncols j col), ?_, ?_⟩
+  · intro j hj
+    have := (lde_welldef (omega_prim dn hd32) (two_pow_ne_zero dn) (fun j => cell (hp.block In) ncols j col)
+      (idft (omega dn) (2 ^ dn) (fun j => cell (hp.block In) ncols j col))).mpr (fun _ _ => rfl) j hj
+    exact this
+  · intro k hk
+    rw [hb]
+    exact c k col hk hcol
+
+end generated
 
 end GoldilocksVerif.C05
